@@ -148,7 +148,7 @@ VEC_MODELS = [
     (r"^Vec::<%s>::truncate$" % T, m_vec_truncate),
     (r"^Vec::<%s>::with_capacity$" % T, m_vec_with_capacity),
     (r"^<Vec<%s> as (?:std::ops::)?Index<(?:std::ops::)?Range(?:From|To)?<usize>>>::index$" % T, m_index_range),
-    (r"^<Vec<%s> as (?:std::ops::)?Index<usize>>::index$" % T, m_index_usize),
+    (r"^<Vec<%s> as (?:std::ops::)?Index(?:Mut)?<usize>>::index(?:_mut)?$" % T, m_index_usize),
     (r"^<Vec<u8> as Clone>::clone$", m_clone),
     (r"slice::<impl \[%s\]>::to_vec$" % T, m_to_vec),
     (r"slice::<impl \[%s\]>::len$" % T, m_slice_len),
